@@ -162,12 +162,15 @@ class ListParameter(Parameter):
         if not isinstance(value, (list, tuple)):
             raise ParameterNotValid(value, "List", lineno)
 
-        return [
-            self.value_type.clean(
-                item.value if isinstance(item, Argument) else item, program, lineno
-            )
-            for item in value
-        ]
+        def unwrap(item):
+            # Items parsed from a command file arrive wrapped; an untyped item may itself be a list of wrapped items
+            if isinstance(item, Argument):
+                item = item.value
+            if type(self.value_type) is Parameter and isinstance(item, (list, tuple)):
+                return [unwrap(x) for x in item]
+            return item
+
+        return [self.value_type.clean(unwrap(item), program, lineno) for item in value]
 
 
 class TupleParameter(Parameter):
